@@ -390,6 +390,8 @@ func checkC08(ctx *Ctx) *Result {
 		}
 		reportMismatches(r, "R8.4", val, vf, func(m mismatch) bool { return m.Missing && m.Kind == "missing-error" }, "an invalid Config would be accepted")
 		intRule(ctx, r, "R8.4")
+		// the predicates the origin table takes as given: "deemed insecure" and "public suffix"
+		patternPredicates(ctx, r, "R8.4")
 	}
 	return r
 }
@@ -699,6 +701,8 @@ func checkC09(ctx *Ctx) *Result {
 		r.undecided("R9.2", "writers", fmt.Sprintf("%d functions store to the Middleware's state, expected 3 (creation, Reconfigure, SetDebug)", writers))
 	}
 	checkDebugColours(ctx, r)
+	// SetDebug/Reconfigure must reach every handler Wrap ever returned
+	wrapReturnsClosure(ctx, r, "R11.6")
 	return r
 }
 
@@ -952,6 +956,9 @@ func checkC12(ctx *Ctx) *Result {
 			r.check(fresh, "R12.3", funcName(f)+" returns fresh memory", ctx.P.Pos(f.Pos()), "result aliases "+why, 1)
 		}
 	}
+	// R12.3 presupposes that what Config() hands out IS newConfig's result
+	r.rule("R6.2", "Config() returns the result of a newConfig call made in this invocation on the snapshot it read (no memoised or post-processed value)", 1)
+	configPlumbing(ctx, r, "R6.2")
 	// R12.4
 	rt, ok := requestTableGuards(ctx, r)
 	if ok {
